@@ -186,10 +186,12 @@ class BitStringPayloadDecoder(AbstractSimplePayloadDecoder):
 
             return
 
-        if not length:
-            raise error.PyAsn1Error('Empty BIT STRING substrate')
-
         if tagSet[0].tagFormat == tag.tagFormatSimple:  # XXX what tag to check?
+
+            # the primitive form has at least the unused bits octet; the
+            # constructed form may hold no segment at all (empty bit string)
+            if not length:
+                raise error.PyAsn1Error('Empty BIT STRING substrate')
 
             for trailingBits in readFromStream(substrate, 1, options):
                 if isinstance(trailingBits, SubstrateUnderrunError):
